@@ -302,6 +302,9 @@ class Gen:
                 use_kw = True          # skip it; everything after must be keyword
                 continue
             val = self.int_expr(1, ints) if r.random() > 0.12 else r.choice(["z", "None"])
+            if self.p("str_args"):
+                # a string argument holding parentheses, quotes, commas: text, not structure
+                val = r.choice(["'fine :)'", "':('", "'(('", "'a, b'", "'say \"hi)\"'", "'x=1)'", "\"it's (\""])
             if use_kw or r.random() < 0.25:
                 use_kw = True
                 out.append(f"{name}={val}")
